@@ -1862,7 +1862,7 @@ bad_entry:
   coap_log_warn("oscore_conf: Unrecognized configuration entry '%.*s'\n",
                 (int)(end - begin),
                 begin);
-  return 0;
+  return -1;
 }
 
 #undef CONFIG_ENTRY
@@ -1934,6 +1934,7 @@ coap_parse_oscore_conf_mem(coap_str_const_t conf_mem) {
   coap_str_const_t keyword;
   oscore_value_t value;
   coap_oscore_conf_t *oscore_conf;
+  int rc = 0;
 
   oscore_conf = coap_malloc_type(COAP_STRING, sizeof(coap_oscore_conf_t));
   if (oscore_conf == NULL)
@@ -1952,7 +1953,7 @@ coap_parse_oscore_conf_mem(coap_str_const_t conf_mem) {
   oscore_conf->break_recipient_key = 0;
 
   while (end > start &&
-         get_split_entry(&start, end - start, &keyword, &value)) {
+         (rc = get_split_entry(&start, end - start, &keyword, &value)) > 0) {
     size_t i;
     size_t j;
 
@@ -2037,6 +2038,10 @@ coap_parse_oscore_conf_mem(coap_str_const_t conf_mem) {
         coap_delete_bin_const(value.u.value_bin);
       goto error;
     }
+  }
+  if (rc < 0) {
+    /* an entry that cannot be taken must not silently end the configuration */
+    goto error;
   }
   if (!oscore_conf->master_secret) {
     coap_log_warn("oscore_conf: master_secret not defined\n");
